@@ -338,6 +338,8 @@ def run_c02(F, R):
     check_welford(F, R, 'WelfordOnline')
     check_predicate_counter(F, R, 'BinaryEntropy')
     no_raw_in_state(F, R, spec.WINDOW_VIEWS)
+    from .e_typed_props import no_absolute_thresholds
+    no_absolute_thresholds(F, R, spec.WINDOW_VIEWS, 'G0')
     roc_base(F, R)
     R.floor('W1', 10)
     R.floor('M1', 2)
@@ -394,6 +396,8 @@ def run_c03(F, R):
     R.assume('N >= 1; for PolarizedFractalEfficiency the supplied moving average is itself a finite-memory view')
     check_windows(F, R, [n for n in spec.FINITE_MEMORY if n not in ('Vst', 'Vsct')] + ['Vst', 'Vsct'], 'W1')
     census(F, R, spec.FINITE_MEMORY)
+    from .e_typed_props import no_absolute_thresholds
+    no_absolute_thresholds(F, R, spec.FINITE_MEMORY, 'G0')
     R.floor('W1', 17)
     R.floor('CEN', 30)
     R.decline('that paired +g/-g cancel exactly (K is not computed; "up to rounding" is not decided); Alma 2N and PFE N+M-1 are taken from the statement')
@@ -405,6 +409,8 @@ def run_c05(F, R):
     check_accumulators(F, R, {'Rsi': 2, 'MyRSI': 2})
     no_raw_in_state(F, R, spec.WINDOW_VIEWS_C05)
     census(F, R, spec.WINDOW_VIEWS_C05, 'CEN')
+    from .e_typed_props import no_absolute_thresholds
+    no_absolute_thresholds(F, R, spec.WINDOW_VIEWS_C05, 'G0')
     ratio_guards(F, R)
     R.floor('M1', 4)
     R.floor('M2', 2)
